@@ -6,6 +6,7 @@ import (
 	"context"
 	"errors"
 	"fmt"
+	"os"
 	"strings"
 	"testing"
 	"time"
@@ -58,6 +59,7 @@ type step struct {
 	Bools  []bool
 	Logger int
 	Opts   []step // for new: options
+	Times  int    // for set: the call is made this many times in a row (0/1: once): counters must not wrap into an old state
 }
 
 func (s step) String() string {
@@ -175,6 +177,9 @@ func apply(l slog.Logger, op string, bools []bool, with bool) *slog.Entry {
 func (wd *world) exec(t vlib.TB, s step, hist func() string) {
 	switch s.Kind {
 	case "set":
+		for i := 1; i < s.Times; i++ {
+			apply(wd.loggers[s.Logger], s.Op, s.Bools, false)
+		}
 		apply(wd.loggers[s.Logger], s.Op, s.Bools, false)
 		wd.states[s.Logger] = transition(wd.states[s.Logger], s.Op, s.Bools)
 	case "with":
@@ -216,6 +221,13 @@ func TestGeneratedHistories(t *testing.T) {
 		n := rapid.IntRange(1, 30).Draw(t, "steps")
 		visited := map[int]map[state]bool{0: {stColor: true}}
 		touched := map[int]bool{}
+		burst := false
+		if rapid.IntRange(0, 14).Draw(t, "noColorEnv") == 0 {
+			// the environment asks programs for plain output: a logger's format is still what its mode calls made it
+			_ = os.Setenv("NO_COLOR", "1")
+			defer os.Unsetenv("NO_COLOR")
+			hist = append(hist, "env NO_COLOR=1")
+		}
 		for i := 0; i < n; i++ {
 			var s step
 			s.Logger = rapid.IntRange(0, len(wd.loggers)-1).Draw(t, "logger")
@@ -236,6 +248,20 @@ func TestGeneratedHistories(t *testing.T) {
 			if s.Kind == "set" || s.Kind == "with" {
 				s.Op = rapid.SampledFrom([]string{"json", "color"}).Draw(t, "op")
 				s.Bools = genBools().Draw(t, "bools")
+			}
+			if s.Kind == "set" && rapid.IntRange(0, 59).Draw(t, "burst") == 0 {
+				// a probe, a long run of one and the same mode call, one different mode call, a probe
+				s.Times = rapid.SampledFrom([]int{255, 256, 65535, 65536, 65537, 131071}).Draw(t, "times")
+				hist = append(hist, fmt.Sprintf("L%d.probe", s.Logger))
+				wd.probe(t, s.Logger, h)
+				hist = append(hist, fmt.Sprintf("%v x%d", s, s.Times))
+				wd.exec(t, s, h)
+				s2 := step{Kind: "set", Logger: s.Logger, Op: rapid.SampledFrom([]string{"json", "color"}).Draw(t, "op2"), Bools: []bool{rapid.Bool().Draw(t, "b2")}}
+				hist = append(hist, s2.String(), fmt.Sprintf("L%d.probe", s.Logger))
+				wd.exec(t, s2, h)
+				wd.probe(t, s.Logger, h)
+				burst = true
+				continue
 			}
 			hist = append(hist, s.String())
 			wd.exec(t, s, h)
@@ -262,6 +288,9 @@ func TestGeneratedHistories(t *testing.T) {
 		key := ""
 		if multi && (len(touched) >= 2 || len(wd.loggers) >= 2) {
 			key = h()
+		}
+		if burst {
+			vlib.Label("long-run-of-one-mode-call")
 		}
 		vlib.Case("TestGeneratedHistories", key, fmt.Sprintf("loggers=%d", len(wd.loggers)))
 		if key != "" && vlib.WantSample("TestGeneratedHistories") {
